@@ -141,12 +141,20 @@ Lemma hvehicle_body_eq v h : hvehicle_body v h =
    (number_ptr 4 (ve_status (hv v)) (string_ptr (ve_stop (hv v)) (number_ptr 4 (ve_seq (hv v))
    (h_pos (ve_pos (hv v)) (h_vtrip (hv_trip v) (h_vid (ve_id (hv v)) h))))))))).
 Proof. reflexivity. Qed.
+(* the vehicle encoding written out: one step of definitional unfolding, kept in its own small lemma so that the
+   kernel re-checks it cheaply *)
+Definition enc_vehicle_flat (v : hvehicle) : list Z :=
+  enc (c_option c_vid) (omap (fun i => (vi_id i, (vi_label i, vi_plate i))) (ve_id (hv v))) ++
+  enc (c_option c_trip) (omap tr_data (hv_trip v)) ++
+  enc (c_option c_pos) (omap (fun p => (po_lat p, (po_lon p, (po_bearing p, (po_odo p, po_speed p))))) (ve_pos (hv v))) ++
+  s_optnum 4 (ve_seq (hv v)) ++ enc_option c_str (ve_stop (hv v)) ++ s_optnum 4 (ve_status (hv v)) ++
+  s_optnum 8 (omap fst (ve_ts (hv v))) ++ le_bytes 4 (ve_congestion (hv v)) ++ s_optnum 4 (ve_occ (hv v)) ++ s_optnum 4 (ve_occ_pct (hv v)).
+Lemma enc_vehicle_flat_eq v : enc c_vehicle (ve_data v) = enc_vehicle_flat v.
+Proof. reflexivity. Qed.
 Lemma total_hvehicle v h : total (hvehicle_body v h) = total h ++ enc c_vehicle (ve_data v).
 Proof.
-  rewrite hvehicle_body_eq. unfold time_ptr.
+  rewrite enc_vehicle_flat_eq, hvehicle_body_eq. unfold time_ptr, enc_vehicle_flat.
   rewrite !total_number_ptr, total_number, !total_number_ptr, total_string_ptr, total_number_ptr, total_h_pos, total_h_vtrip, total_h_vid.
-  unfold c_vehicle, ve_data. unfold c_pair at 1 2 3 4 5 6 7 8 9. cbn [enc fst snd].
-  unfold i32, i64, u32. cbn [c_option enc]. rewrite ?enc_option_u, ?enc_option_s.
   rewrite <- !app_assoc. reflexivity.
 Qed.
 Theorem hash_vehicle_stream v : hash_vehicle v = enc c_vehicle (ve_data v).
@@ -259,9 +267,11 @@ Definition ex_trip : rt_trip :=
   {| tr_key := {| k_id := "067800_L..N"; k_route := "L"; k_dir := 2; k_has_time := true; k_time := 40680000000000;
                   k_has_date := true; k_date := (1699938000, "America/New_York"); k_rel := 0 |};
      tr_stus := [ex_stu; ex_stu]; tr_vehicle := Some (Some {| vi_id := "0L 1118"; vi_label := ""; vi_plate := "" |}); tr_in_msg := true |}.
+Ltac ground := lazy; repeat split; try reflexivity; try (intro; discriminate).
 Example ex_trip_wf : wf_trip ex_trip.
-Proof. unfold wf_trip. vm_compute.
-  repeat (split || constructor); try reflexivity; try (intro; discriminate); exact I. Qed.
+Proof. unfold wf_trip. change (wf_trip_data (tr_data ex_trip)). unfold wf_trip_data.
+  split; [ground|split; [ground|split; [ground|]]].
+  unfold ex_trip, tr_data; cbn [snd fst map tr_stus]. repeat (apply Forall_cons; [ground|]). apply Forall_nil. Qed.
 Example nil_vs_zero : enc (c_option i32) None <> enc (c_option i32) (Some 0).
 Proof. vm_compute. congruence. Qed.
 Example boundary : enc c_str "ab" ++ enc c_str "c" <> enc c_str "a" ++ enc c_str "bc".
